@@ -18,6 +18,7 @@ import (
 	"path/filepath"
 	"regexp"
 	"strings"
+	"syscall"
 	"time"
 
 	"github.com/nsqio/nsq/nsqlookupd"
@@ -306,6 +307,33 @@ var httpTopics = []*string{nil, sp(""), sp(byTopic), sp("new1"), sp("bad$"), sp(
 var httpChans = []*string{nil, sp(""), sp(byChan), sp("newc"), sp("bad$"), sp(strings.Repeat("c", 65)), sp("*")}
 var httpNodes = []*string{nil, sp("bystander:4151"), sp("x:1"), sp("h1:4151")}
 
+// expectedStatus: the HTTP status rules of the API for requests whose arguments are
+// missing or invalid (0 = no expectation): 400 on the handlers that take arguments.
+func expectedStatus(a actIn) int {
+	post := a.Method == "POST"
+	get := a.Method == "GET"
+	bad := func(s *string) bool { return s == nil || !isValidName(*s) }
+	switch {
+	case post && (a.Path == "/topic/create"):
+		if a.RawQ != "" || bad(a.QT) {
+			return 400
+		}
+	case post && (a.Path == "/channel/create" || a.Path == "/channel/delete"):
+		if a.RawQ != "" || bad(a.QT) || bad(a.QC) {
+			return 400
+		}
+	case post && a.Path == "/topic/delete", get && (a.Path == "/lookup" || a.Path == "/channels"):
+		if a.RawQ != "" || a.QT == nil {
+			return 400
+		}
+	case post && a.Path == "/topic/tombstone":
+		if a.RawQ != "" || a.QT == nil || a.QN == nil {
+			return 400
+		}
+	}
+	return 0
+}
+
 func genHTTP(r *lib.Rand) actIn {
 	a := actIn{K: "http"}
 	a.Method = httpMethods[r.Intn(len(httpMethods))]
@@ -415,6 +443,7 @@ func startDaemon() *daemon {
 		lib.Fatalf("nsqlookupd binary not found at %s", bin)
 	}
 	cmd := exec.Command(bin, "-tcp-address", "127.0.0.1:0", "-http-address", "127.0.0.1:0", "-broadcast-address", "127.0.0.1")
+	cmd.SysProcAttr = &syscall.SysProcAttr{Pdeathsig: syscall.SIGKILL} // no orphan daemon if the driver dies
 	stderr, err := cmd.StderrPipe()
 	if err != nil {
 		lib.Fatalf("pipe: %v", err)
@@ -546,6 +575,7 @@ func runSession(s sessIn) lib.Case {
 	for _, a := range s.Acts {
 		var action, result, expect string
 		expect = "None"
+		expectStatus := "None"
 		switch a.K {
 		case "op":
 			o := a.Op
@@ -618,6 +648,9 @@ func runSession(s sessIn) lib.Case {
 			if a.RawQ != "" {
 				q, qc = "?"+a.RawQ, "IQBad"
 			}
+			if e := expectedStatus(a); e != 0 {
+				expectStatus = fmt.Sprintf("(Some %d)", e)
+			}
 			st, _ := hc.do(a.Method, a.Path+q)
 			action = fmt.Sprintf("(IAHttp %s %s %s)", lib.CoqString(a.Method), lib.CoqString(a.Path), qc)
 			result = fmt.Sprintf("(RHttp %d)", st)
@@ -631,7 +664,7 @@ func runSession(s sessIn) lib.Case {
 		if alive {
 			v = view()
 		}
-		acts = append(acts, fmt.Sprintf("(imkAct %s %s %s %s %s)", action, result, lib.CoqBool(alive), expect, v))
+		acts = append(acts, fmt.Sprintf("(imkAct %s %s %s %s %s %s)", action, result, lib.CoqBool(alive), expect, expectStatus, v))
 		if !alive {
 			dead = true
 			tagc["daemon=DIED"]++
